@@ -63,4 +63,12 @@ theorem C07_nn_walk_local_min (s : St) (q : Pt) (fuel v : Nat)
     ∀ e, e < s.nE → s.org e = s.nnWalk q fuel v →
       dist2 (s.P (s.nnWalk q fuel v)) q ≤ dist2 (s.B e) q := C15_walk_local_min s q fuel v hfuel
 
+
+/-- **`CircularIterator` terminates, double-ended.**  Over a cycle of `n` elements, among any
+    sequence of `next()` / `next_back()` calls exactly the first `n` answer `Some`; every later call
+    answers `None` (state machine translated by T0 from circular_iterator.rs). -/
+theorem C07_code_circular_iterator_stops {step back cyc n} (h : IsCycle step back cyc n) (ops : List Bool) :
+    ((CI.run step back (Generated.CI.new (cyc 0)) ops).filter Option.isSome).length = min ops.length n := by
+  rw [C14_code_double_ended h, ciSpec_count cyc n ops 0 0 (by omega)]; simp
+
 end Spade
